@@ -92,6 +92,8 @@ def has_bool(t):
 def _wrap_gfs(orig):
     def get_fair_states(self, F):
         site = mon.caller_site(2)
+        if hasattr(F, '__next__'):
+            F = list(F)          # one-shot iterator: the monitor reads it too
         try:
             nk = nk_of(self)
             Fl = list(F)
@@ -101,7 +103,7 @@ def _wrap_gfs(orig):
         err = None
         res = None
         try:
-            res = orig(self, Fl)
+            res = orig(self, F)       # the caller's own container
         except BaseException as e:
             err = e
         if ok_domain:
